@@ -126,13 +126,20 @@ func (s *sliceMachine) Assign(task *Task) {
 }
 
 // Discard discards the storage resources held by task. The task will be
-// unassigned from s and considered TaskLost. If s does not own task, no-op.
+// unassigned from s and considered TaskLost. If s does not own task, no storage
+// is released, but the task is still marked TaskLost.
 func (s *sliceMachine) Discard(ctx context.Context, task *Task) {
 	s.mu.Lock()
 	_, ok := s.tasks[task]
 	delete(s.tasks, task)
 	s.mu.Unlock()
 	if !ok {
+		// s does not (yet, or any longer) own the task, e.g. because Discard
+		// ran between the task being marked TaskOk and its assignment to s.
+		// The caller has moved the task to TaskRunning for the hand-over; do
+		// not leave it parked there, or evaluators waiting on it never wake.
+		// Marking it lost is always safe: it is recomputed when needed.
+		task.Set(TaskLost)
 		return
 	}
 	// s exclusively owns task's state during this time, so this does not race
